@@ -47,6 +47,22 @@ def _parse(out, tag):
     return None
 
 
+def _leftover_json(res):
+    """run_tlc hands lines that were still buffered when TLC exited back as plain text in
+    res.out; objects printed by the spec may be among them."""
+    out = []
+    for line in res.out.splitlines():
+        t = line.strip()
+        if t.startswith('"{') and t.endswith('}"'):
+            t = t[1:-1].replace('\\"', '"').replace("\\\\", "\\")
+        if t.startswith("{") and t.endswith("}"):
+            try:
+                out.append(json.loads(t))
+            except ValueError:
+                pass
+    return out
+
+
 def _slug(s):
     return "".join(c if c.isalnum() else "-" for c in s.lower()).strip("-")[:60]
 
@@ -61,6 +77,9 @@ def _pathops(ck, binary, name, maxseg, neg, pos, maxcount, rescodes):
             f.write(json.dumps(o, separators=(",", ":")) + "\n")
         res = run_tlc("geometric/PathOps", cfg=_cfg(name, maxseg, neg, pos, maxcount, rescodes),
                       workers=vlib.NCPU, timeout=3000, json_sink=sink)
+        for o in _leftover_json(res):
+            if "op" in o and "exp" in o:
+                sink(o)
     ck.tlc(res, name)
     if res.violated:
         # the transcription breaks the contract: a design-level finding; the verdict on the code
@@ -137,7 +156,7 @@ def _validate(ck, tpath, label, first, count):
                                 res.out[-1500:]))
     ck.add("trace_events", len(evs))
     rejected = {}
-    for r in res.json:
+    for r in list(res.json) + _leftover_json(res):
         if isinstance(r, dict) and "reject" in r:
             rejected[r["reject"]] = r["broken"]
     by_key = collections.OrderedDict()
@@ -295,7 +314,7 @@ def replay(path):
         evs = vlib.read_ndjson(path)
         acc, prefix, res = validate_trace(TRACE_SPEC, path)
         rej = {}
-        for r in res.json:
+        for r in list(res.json) + _leftover_json(res):
             if isinstance(r, dict) and "reject" in r:
                 rej[r["reject"]] = r["broken"]
         if not acc:
